@@ -85,10 +85,19 @@ K_LostWakeup(x) ==
 K_LockOrder(x) ==
     /\ BlockedAt(x, "S", "acquire", "plock")
     /\ \E i \in Ifaces(x) : BlockedAt(x, i, "acquire", "qlock")
+\* threads whose pause request is still outstanding at the end of the log
+\* (pause_on_next called, no cont() completed since)
+Outstanding(x) ==
+    {th \in {x.events[i].th : i \in {j \in DOMAIN x.events :
+                                       x.events[j].ev = "call" /\ x.events[j].k = "P"}} :
+        LastIdx(x.events, LAMBDA e : e.ev = "call" /\ e.th = th /\ e.k = "P")
+        > LastIdx(x.events, LAMBDA e : e.ev = "ret" /\ e.th = th /\ e.k = "C")}
 \* C18-result-while-paused: get_result of a command queued while the solver
-\* is parked in qlock.wait() (dispatch does not notify qlock)
+\* is parked in qlock.wait() because of a pause request that is still
+\* outstanding (dispatch does not notify qlock)
 K_ResultWhilePaused(x) ==
     /\ BlockedAt(x, "S", "cond_wake", "qlock")
+    /\ Outstanding(x) # {}
     /\ \E i \in Ifaces(x) : \E j \in DOMAIN x.blocked :
          /\ x.blocked[j].th = i /\ x.blocked[j].kind = "acquire"
          /\ \E e \in Range(x.events) : e.ev = "call" /\ e.k = "R" /\ e.th = i
